@@ -7,9 +7,9 @@ OUT=$W/_out
 cd $W || exit 2
 git checkout -q -- . ; git apply _out/patch.diff || { echo "AGENT PATCH DOES NOT APPLY"; exit 3; }
 echo "== tests with change"; TESTS=$(/venv/bin/python -m pytest -q -p no:cacheprovider --timeout=900 2>&1 | tail -1); echo "$TESTS"
-echo "== demo with change"; timeout 300 /venv/bin/python _out/demo.py >/tmp/seed/$ID.demo_with.log 2>&1; DW=$?; echo "exit=$DW"
+echo "== demo with change"; timeout 300 ${DEMO_PY:-/venv/bin/python} _out/demo.py >/tmp/seed/$ID.demo_with.log 2>&1; DW=$?; echo "exit=$DW"
 git apply -R _out/patch.diff
-echo "== demo without change"; timeout 300 /venv/bin/python _out/demo.py >/tmp/seed/$ID.demo_without.log 2>&1; DWO=$?; echo "exit=$DWO"
+echo "== demo without change"; timeout 300 ${DEMO_PY:-/venv/bin/python} _out/demo.py >/tmp/seed/$ID.demo_without.log 2>&1; DWO=$?; echo "exit=$DWO"
 git apply _out/patch.diff
 cd /verif
 mkdir -p seeded/$ID
